@@ -160,8 +160,12 @@ Definition buy_gas (e : env) (t : txn) (ci : credit_info) (l : ledger) : start_e
 Section Exec.
   Variables W O : Type.                         (* the rest of the world state; a clause output *)
   Definition state : Type := ledger * W.
-  Record cres := mkCres { cr_left : Z; cr_refund : Z; cr_err : bool; cr_state : state; cr_out : O }.
-  Variable clause_result : nat -> Z -> state -> cres.
+  (* what one clause did: gas handed back, refund counter, VM error, the ledger primitives it performed in order (transfers,
+     energy moves through the builtin, self-destructs), the rest of the world after it, its output *)
+  Record cres := mkCres { cr_left : Z; cr_refund : Z; cr_err : bool; cr_ops : list op; cr_world : W; cr_out : O }.
+  Definition cres_state (T S : Z) (st : state) (r : cres) : state := (apply_ops T S (fst st) (cr_ops r), cr_world r).
+  (* the ORACLE for the EVM: block context, transaction, clause index, gas handed in, state before the clause *)
+  Variable clause_result : env -> txn -> nat -> Z -> state -> cres.
   Variable write_credit : Z -> Z -> Z -> W -> W.   (* prototype binding SetUserCredit(commonTo)(origin, value) *)
 
   Record receipt := mkReceipt {
@@ -176,19 +180,37 @@ Section Exec.
   | Done (st : state) (rc : receipt).
 
   (* the exec closure of PrepareTransaction, iterated as ExecuteTransaction does *)
-  Fixpoint run_clauses (checkpoint : state) (i : nat) (cs : list clause) (lft : Z) (st : state)
-           (outs : list O) (log : list (Z * Z * Z)) : Z * state * list O * bool * list (Z * Z * Z) :=
+  Fixpoint run_clauses (cr : nat -> Z -> state -> cres) (T S : Z) (checkpoint : state) (i : nat) (cs : list clause) (lft : Z)
+           (st : state) (outs : list O) (log : list (Z * Z * Z)) : Z * state * list O * bool * list (Z * Z * Z) :=
     match cs with
     | [] => (lft, st, outs, false, log)
     | _ :: rest =>
-      let r := clause_result i lft st in
+      let r := cr i lft st in
       let used := lft - cr_left r in
       let refund := Z.min (used / 2) (cr_refund r) in
       let lft' := cr_left r + refund in
       let log' := log ++ [(lft, used, refund)] in
       if cr_err r then (lft', checkpoint, [], true, log')
-      else run_clauses checkpoint (S i) rest lft' (cr_state r) (outs ++ [cr_out r]) log'
+      else run_clauses cr T S checkpoint (Datatypes.S i) rest lft' (cres_state T S st r) (outs ++ [cr_out r]) log'
     end.
+
+  (* specification companions of the loop: the results of executing EVERY clause in order, each on the state left by the
+     previous one with the gas left by the previous one (errors ignored) *)
+  Fixpoint effects_of (cr : nat -> Z -> state -> cres) (T S : Z) (i : nat) (cs : list clause) (lft : Z) (st : state)
+    : list (state * cres) :=
+    match cs with
+    | [] => []
+    | _ :: rest =>
+      let r := cr i lft st in
+      let used := lft - cr_left r in
+      let lft' := cr_left r + Z.min (used / 2) (cr_refund r) in
+      (st, r) :: effects_of cr T S (Datatypes.S i) rest lft' (cres_state T S st r)
+    end.
+  Definition state_after (T S : Z) (effs : list (state * cres)) (st : state) : state :=
+    fold_left (fun _ p => cres_state T S (fst p) (snd p)) effs st.
+  Definition any_error (effs : list (state * cres)) : bool := existsb (fun p => cr_err (snd p)) effs.
+  Definition burned_by (T S : Z) (effs : list (state * cres)) : Z * Z :=
+    fold_right (fun p acc => let '(b, e) := burned T S (fst (fst p)) (cr_ops (snd p)) in (b + fst acc, e + snd acc)) (0, 0) effs.
 
   Definition reward_of (e : env) (t : txn) (gas_used : Z) : Z :=
     if e_number e <? e_galactica e
@@ -207,7 +229,7 @@ Section Exec.
         let st1 : state := (b_led b, snd st0) in
         if t_ctx_err t then Failed ErrContext st1
         else
-          let '(lft, st2, outs, reverted, log) := run_clauses st1 0%nat (t_clauses t) (t_gas t - ig) st1 [] [] in
+          let '(lft, st2, outs, reverted, log) := run_clauses (clause_result e t) T S st1 0%nat (t_clauses t) (t_gas t - ig) st1 [] [] in
           let gas_used := t_gas t - lft in
           let paid := gas_used * b_price b in
           let returned := lft * b_price b in
@@ -225,6 +247,17 @@ Section Exec.
                           (if track then Some credit' else None) log)
       end
     end.
+
+  (* the clause results of a started transaction (specification view) and what its self-destructs-to-self destroyed: nothing
+     when the transaction reverts (the state is restored), else the sum over its clauses *)
+  Definition tx_effects (e : env) (t : txn) (ci : credit_info) (st0 : state) : list (state * cres) :=
+    match resolve t, buy_gas e t ci (fst st0) with
+    | inr ig, inr b => effects_of (clause_result e t) (e_time e) (e_stop e) 0%nat (t_clauses t) (t_gas t - ig) (b_led b, snd st0)
+    | _, _ => []
+    end.
+  Definition tx_burned (e : env) (t : txn) (ci : credit_info) (st0 : state) : Z * Z :=
+    let effs := tx_effects e t ci st0 in
+    if any_error effs then (0, 0) else burned_by (e_time e) (e_stop e) effs.
 
   (* packer/flow.go Adopt: gas room check (uint64 sum, unguarded), checkpoint, execute, revert on error *)
   Inductive adopt_result := Rejected (st : state) | Adopted (st : state) (rc : receipt).
